@@ -93,7 +93,7 @@ def equiv_check(kinds, what):
                 K.emit_tables(prop, "tab-la", dict(CFGS="U_C04", SYMS="Syms_C04", HI=600 if q else 6000))]
         n = 150 if q else 3000
         sources = ["tables:" + t for t in tabs] + [f"random:c01:{n}:{seed}", f"random:c04:{n}:{seed}",
-                                                     f"random:c06:{n}:{seed}", "classpairs", "sharedtt", "congruent", "corpus"]
+                                                     f"random:c06:{n}:{seed}", "classpairs", "sharedtt", "congruent", f"tries:{300 if q else 5000}:{seed}", "corpus"]
         if "min" in kinds:
             # long chains (many refinement rounds): minimiser input/output only - their position automaton is of no use to C02
             sources.append("chains")
